@@ -108,6 +108,12 @@ func SliceElement(t types.Type) types.Type {
 
 // GetDocCommentOn retrieves doc comments that relate to nodes.
 func GetDocCommentOn(file *ast.File, obj types.Object) (cg *ast.CommentGroup, cleanUp func()) {
+	if obj.Pos() < file.Pos() || file.End() <= obj.Pos() {
+		// obj is declared in another file (a method inherited from an interface of a
+		// sibling file): nothing in this file is its doc comment, least of all the
+		// package comment.
+		return nil, func() {}
+	}
 	nodes, _ := ToAstNode(file, obj)
 	if nodes == nil {
 		return nil, func() {}
